@@ -17,7 +17,7 @@ import (
 )
 
 type qop struct {
-	kind string // cursor | size | clip
+	kind string // cursor | size | clip | key (a `CSI r;c R` key report typed with no query outstanding)
 	a    []int
 	text string
 	mode string // reply | silent
@@ -25,6 +25,8 @@ type qop struct {
 
 func (q qop) enc() string {
 	switch q.kind {
+	case "key":
+		return "query key " + inp.EncSeq(keySeq(q))
 	case "cursor":
 		return fmt.Sprintf("query cursor %d %d %s", q.a[0], q.a[1], q.mode)
 	case "size":
@@ -33,6 +35,11 @@ func (q qop) enc() string {
 		pl := "52;c;" + base64.StdEncoding.EncodeToString([]byte(q.text))
 		return fmt.Sprintf("query clip %s %s", q.mode, inp.EncSeq(ansi.OSC{Payload: []rune(pl)}))
 	}
+}
+
+// keySeq: the sequence of a `CSI r;c R` report (F3 with modifiers shares the final byte of CPR).
+func keySeq(q qop) ansi.Sequence {
+	return ansi.CSI{Parameters: [][]int{{q.a[0]}, {q.a[1]}}, Final: 'R'}
 }
 
 func guardStr(d time.Duration, f func() string) string {
@@ -84,6 +91,25 @@ func (h *H) queryCase(id string, mask uint32, ops []qop) {
 			return nil
 		}
 		var res string
+		if q.kind == "key" {
+			// no query is outstanding (every earlier one has returned): the report is user input
+			// and must come out as exactly one key event
+			f.TakeEvents()
+			f.Fc.InjectString(fmt.Sprintf("\x1b[%d;%dR", q.a[0], q.a[1]) + sentinel)
+			alive := f.WaitEvent(sentinelEv, time.Second)
+			evs := f.TakeEvents()
+			if alive && len(evs) >= 2 {
+				evs = evs[:len(evs)-2] // the sentinel's CAN and U+E000 keys
+			}
+			res = "ev=" + inp.Join(evs)
+			if !alive {
+				res += " wedged"
+				f.Drain()
+			}
+			r.Emit(q.enc(), res+" "+inp.CanonState(f.Vx.VerifC03Snapshot()))
+			r.Count("query-key")
+			continue
+		}
 		switch q.kind {
 		case "cursor":
 			res = guardStr(2*time.Second, func() string {
@@ -149,6 +175,10 @@ func (h *H) genQuery(i int) {
 		switch rng.Intn(3) {
 		case 0:
 			ops = append(ops, qop{kind: "cursor", a: []int{rng.Range(0, 300), rng.Range(0, 500)}, mode: mode})
+			// a Shift+F3-style key report (or a late answer) after the query has returned
+			if rng.Chance(2, 3) {
+				ops = append(ops, qop{kind: "key", a: []int{rng.Range(1, 3), rng.Range(1, 9)}})
+			}
 		case 1:
 			if sizeOK {
 				ops = append(ops, qop{kind: "size", a: []int{rng.Range(1, 300), rng.Range(1, 500), rng.Range(0, 3000), rng.Range(0, 5000)}, mode: mode})
@@ -169,6 +199,14 @@ func parseQop(f []string) (qop, bool) {
 		return qop{}, false
 	}
 	switch f[1] {
+	case "key":
+		// query key csi - r;c 82 k tok et
+		if len(f) >= 5 {
+			ps := strings.Split(f[4], ";")
+			if len(ps) == 2 {
+				return qop{kind: "key", a: []int{atoi(ps[0]), atoi(ps[1])}}, true
+			}
+		}
 	case "cursor":
 		if len(f) >= 5 {
 			return qop{kind: "cursor", a: []int{atoi(f[2]), atoi(f[3])}, mode: f[4]}, true
